@@ -26,6 +26,8 @@ type memConn struct {
 	writeCnt  int
 	blockAt   int // index of the Write call that blocks until close (-1: none)
 	failAt    int // index of the Write call that fails (-1: none)
+	pauseAt   int           // index of the Write call that waits for `release` and then proceeds normally (-1: none)
+	release   chan struct{} // closed by the harness to let the paused Write go on
 	delivered chan struct{} // closed when every chunk has been handed to the reader
 	endErr    error         // returned by Read once the chunks are exhausted (nil: block until Close)
 	delays    map[int]time.Duration // pause before handing out the chunk with this index (counted from the first)
@@ -33,7 +35,7 @@ type memConn struct {
 }
 
 func newMemConn(chunks [][]byte) *memConn {
-	c := &memConn{chunks: chunks, closed: make(chan struct{}), blockAt: -1, failAt: -1,
+	c := &memConn{chunks: chunks, closed: make(chan struct{}), blockAt: -1, failAt: -1, pauseAt: -1, release: make(chan struct{}),
 		readGate: make(chan struct{}), delivered: make(chan struct{})}
 	close(c.readGate)
 	if len(chunks) == 0 {
@@ -91,6 +93,13 @@ func (c *memConn) Write(p []byte) (int, error) {
 	c.mu.Unlock()
 	if k == c.failAt {
 		return 0, trErr{k}
+	}
+	if k == c.pauseAt {
+		select {
+		case <-c.release:
+		case <-c.closed:
+			return 0, errMemClosed
+		}
 	}
 	if k == c.blockAt {
 		<-c.closed
